@@ -73,6 +73,9 @@ class Scenario(object):
 
     def _set_quotes(self):
         for a, p in self.prices.items():
+            if a in getattr(self, "unquoted", ()):
+                self.handler.set(a, float("nan"), float("nan"))        # no price yet (data start later)
+                continue
             # bid != ask; the sizers read the ask
             self.handler.set(a, float(p) if self.nospread else (float(p) - 0.25 if p > Fraction(1, 4) else float(p) / 2), float(p))
 
@@ -91,6 +94,16 @@ class Scenario(object):
         if not repeat:
             self.uni = [a for a in ASSETS if rng.random() < 0.6]
             self.uni_obj = None                     # a new universe object; a repeated rebalance keeps using the same one
+            # one scenario in seven: an asset that is not held has NO quote at this rebalance (its data start later).  If
+            # it is sized at all - through the universe's zero padding just as through a weight - the sizers refuse
+            # (ValueError) and nothing is traded.  Drawn from a second stream: the scenarios themselves stay as they were.
+            rng2 = random.Random(self.sid * 7919 + dt)
+            self.unquoted = set()
+            if rng2.random() < 1 / 7.0:
+                free = [a for a in ASSETS if a not in self.broker.get_portfolio_as_dict("pf")]
+                if free:
+                    self.unquoted = {rng2.choice(free)}
+            self._set_quotes()
         k = rng.random()
         if repeat:
             pass
@@ -123,7 +136,7 @@ class Scenario(object):
         eq = Fraction(float(self.broker.get_portfolio_total_equity("pf")))
         alpha = dict((ASSETS.index(a) + 1, v) for a, v in (self.alpha if self.alpha is not None else dict((a, 0) for a in self.uni)).items())
         return dict(held=held, uni=[ASSETS.index(a) + 1 for a in self.uni], alpha=alpha,
-                    px=dict((i + 1, rat(self.prices[a])) for i, a in enumerate(ASSETS)),
+                    px=dict((i + 1, ((0, 0) if a in self.unquoted else rat(self.prices[a]))) for i, a in enumerate(ASSETS)),
                     kind=self.kind, eq=rat(eq), par=rat(Fraction(self.par)), fee=rat(Fraction(self.fee)),
                     risk=self.risk, rset=[ASSETS.index(a) + 1 for a in self.rset], opt=self.opt, scale=rat(Fraction(self.scale)))
 
@@ -250,7 +263,7 @@ def judge(sc, case, exp, res, dt):
                 rec, exp_alloc, sc.risk, sc.rset, sc.opt, sc.scale)))
     if err:
         if res["err"] != "ValueError":
-            out.append(("outcome", "expected ValueError (negative weight in long-only sizing), got %s" % res["err"]))
+            out.append(("outcome", "expected ValueError (negative weight in long-only sizing, or an asset of the full list without a price), got %s" % res["err"]))
         return out
     if res["err"]:
         out.append(("outcome", "PCM raised %s on a valid rebalance" % res["err"]))
@@ -278,7 +291,7 @@ def judge(sc, case, exp, res, dt):
 def run(prop, replay_file=None):
     rep = Report(prop)
     t, sd = tier(), seed()
-    rep.assumptions = ["exact dyadic grid (sizing boundaries are C10/C11's subject); every asset of interest has a quote",
+    rep.assumptions = ["exact dyadic grid (sizing boundaries are C10/C11's subject); every held asset has a quote; one scenario in seven has an unheld asset without a quote (NaN) at a rebalance",
                        "fixed-weight optimiser; alpha model = fixed dictionary or absent; static universe chosen afresh at the first two rebalances, the third reuses the second's universe object"]
     n = 250 if t == "quick" else 12000
     if replay_file:
@@ -310,6 +323,10 @@ def run(prop, replay_file=None):
                 pl = rep.cov.setdefault("pipeline_cases", {})
                 for key in ("risk=" + case["risk"], "optimiser=" + case["opt"]):
                     pl[key] = pl.get(key, 0) + 1
+                if sc.unquoted:
+                    rep.cov["rebalances_with_an_unquoted_asset"] = rep.cov.get("rebalances_with_an_unquoted_asset", 0) + 1
+                    if exp[0]:
+                        rep.cov["of_which_must_be_refused"] = rep.cov.get("of_which_must_be_refused", 0) + 1
                 heldset = set(case["held"])
                 if heldset - set(case["uni"]) and heldset - set(case["alpha"]) and not exp[0]:
                     nontriv.add((sc.sid, rnd))
